@@ -5,6 +5,8 @@ import (
 	"math/big"
 	"testing"
 
+	sdk "github.com/cosmos/cosmos-sdk/types"
+	banktypes "github.com/cosmos/cosmos-sdk/x/bank/types"
 	"pgregory.net/rapid"
 )
 
@@ -57,6 +59,11 @@ func classList(m map[string]bool) []string {
 
 // runDistrCase executes cfg with inflows for the given number of blocks, calling check after
 // every block.  Returns whether a fractional leftover was ever observed.
+// payments, when set, marks the blocks in which a user transfer to the main account's address follows
+// the distributor's begin-block (see below).
+var payments map[int]bool
+var userPaymentsAccepted int
+
 func runDistrCase(t *rapid.T, cfg DCfg, inflows []distrInflow, blocks int, check func(r *DistrRun)) (fractional bool, r *DistrRun) {
 	r = NewDistrRun(t, cfg, distrDenoms)
 	if r == nil {
@@ -74,6 +81,14 @@ func runDistrCase(t *rapid.T, cfg DCfg, inflows []distrInflow, blocks int, check
 		}
 		r.Model.Block(naturalFaults, r.ImplLeft())
 		check(r)
+		if payments != nil && payments[b] {
+			// later in the same block a user pays coins to the address of the distributor main account with
+			// an ordinary bank transfer; whether the application lets that through is its wiring - the
+			// books are looked at again at the end of the block
+			res := RunMsg(r.W.App, r.Ctx, &banktypes.MsgSend{FromAddress: KeyAcc(4).Addr.String(), ToAddress: mainAddrStr(), Amount: sdk.NewCoins(sdk.NewInt64Coin(Denom, 250))})
+			userPaymentsAccepted += map[bool]int{true: 1}[res.OK()]
+			check(r)
+		}
 		for _, s := range r.K.GetAllStates(r.Ctx) {
 			_, fr := s.Remains.TruncateDecimal()
 			if !fr.IsZero() {
@@ -110,6 +125,13 @@ func TestC03(t *testing.T) {
 		cfg := GenDistrCfg(t, c03Opts())
 		blocks := rapid.IntRange(2, 8).Draw(t, "blocks")
 		inflows := genInflows(t, cfg, blocks, 30)
+		payments = map[int]bool{}
+		for b := 0; b < blocks; b++ {
+			if rapid.IntRange(0, 3).Draw(t, fmt.Sprintf("userPayment%d", b)) == 0 {
+				payments[b] = true
+			}
+		}
+		defer func() { payments = nil }()
 		fractional, r := runDistrCase(t, cfg, inflows, blocks, func(r *DistrRun) { r.CheckBooks(t) })
 		if r == nil {
 			st.Case(false, nil, "main_alias_rejected_by_validation")
@@ -125,6 +147,9 @@ func TestC03(t *testing.T) {
 		}
 		if len(nd) >= 2 {
 			cl["two_denoms"] = true
+		}
+		if len(payments) > 0 {
+			cl["user_transfer_to_main_account_attempted"] = true
 		}
 		nt := (cl["multi_sub"] || cl["multi_source"]) && fractional
 		st.Case(nt, map[string]interface{}{"cfg": cfg, "blocks": blocks, "inflows": inflows}, classList(cl)...)
